@@ -68,6 +68,39 @@ func (ex *Exec) doCall(fr *Frame, instr ssa.CallInstruction, c *ssa.CallCommon, 
 				return ex.inlineCall(fr, instr, cb.Clo.Fn, cb.Clo, &ssa.CallCommon{}, nil, pc, st)
 			}
 		}
+		if fc != nil && fc.MayCallArg > 0 && fc.MayCallArg-1 < len(args) {
+			if cb := args[fc.MayCallArg-1]; cb.Clo != nil && cb.Clo.Fn.Blocks != nil {
+				ex.assumed[fmt.Sprintf("%s invokes its callback argument at most once and does not retain it (%s)", shortID(id), fc.TrustWhy)] = true
+				// the callee's own effects (its inferred frame; the callback's cells are kept by
+				// the leak analysis because they are reachable only through the callback)
+				st2, res, term := ex.havocCallOwn(fr, instr, callee, c, pc, st, resT)
+				if term {
+					return st2, res, true
+				}
+				called := ex.vc.fresh("callback_ran", SBool)
+				cfn := cb.Clo.Fn
+				fr2 := ex.newFrame(cfn, fr)
+				ex.inlined[fnID(cfn)] = true
+				for _, p := range cfn.Params {
+					v := ex.freshTyped(pc, "cbarg_"+p.Name(), p.Type())
+					fr2.vals[p] = v
+					fr2.params[p.Name()] = v
+				}
+				for i, fv := range cfn.FreeVars {
+					if i < len(cb.Clo.Bindings) {
+						fr2.vals[fv] = cb.Clo.Bindings[i]
+						fr2.addrs[fv] = cb.Clo.BindAddr[i]
+					}
+				}
+				cpc := ex.vc.def("cbpc", and(pc, called))
+				rpc, rst, _ := ex.execFn(fr2, cpc, st2)
+				ran := ex.vc.def("cbran", and(called, rpc))
+				st3 := ex.mergeStates([]inEdge{{cond: ran, st: rst}, {cond: not(ran), st: st2}})
+				// a callback that does not return (panics) ends the path
+				ex.vc.assume(pc, implies(called, rpc), "callback returned")
+				return st3, res, false
+			}
+		}
 		if fc != nil && !fc.Inline && (len(fc.Ensures) > 0 || len(fc.Requires) > 0 || fc.Pure || fc.Trusted) {
 			return ex.callContract(fr, instr, callee, fc, c, args, pc, st, resT)
 		}
@@ -75,6 +108,13 @@ func (ex *Exec) doCall(fr *Frame, instr ssa.CallInstruction, c *ssa.CallCommon, 
 			return ex.inlineCall(fr, instr, callee, clo, c, args, pc, st)
 		}
 	}
+	return ex.havocCall(fr, instr, c, pc, st, resT)
+}
+
+func (ex *Exec) havocCallOwn(fr *Frame, instr ssa.CallInstruction, callee *ssa.Function, c *ssa.CallCommon, pc Term, st State, resT types.Type) (State, Term, bool) {
+	// the callback's captured cells are reached only through the callback, which the caller models explicitly
+	ex.callbackModelled = true
+	defer func() { ex.callbackModelled = false }()
 	return ex.havocCall(fr, instr, c, pc, st, resT)
 }
 
@@ -209,7 +249,11 @@ func (ex *Exec) havocCall(fr *Frame, instr ssa.CallInstruction, c *ssa.CallCommo
 	}
 	before := st
 	st = ex.havocKeys(st, keys, name)
-	ex.preserveLocals(fr, pc, before, st, keys)
+	if ex.callbackModelled {
+		ex.preserveLocals(fr, pc, before, st, keys, nil)
+	} else {
+		ex.preserveLocals(fr, pc, before, st, keys, c)
+	}
 	st = ex.havocPointedLocals(fr, c, st)
 	var res Term
 	if resT != nil {
@@ -321,7 +365,7 @@ func (ex *Exec) callContract(fr *Frame, instr ssa.CallInstruction, callee *ssa.F
 	if !fc.Pure {
 		keys := ex.g.siteFrame(instr)
 		st = ex.havocKeys(st, keys, short)
-		ex.preserveLocals(fr, pc, pre, st, keys)
+		ex.preserveLocals(fr, pc, pre, st, keys, c)
 		st = ex.havocPointedLocals(fr, c, st)
 	}
 	var res Term
